@@ -1073,6 +1073,120 @@ static string opBddToTd(const vector<string>& a)
 	return out.str();
 }
 
+
+// ---------------------------------------------------------------- Timbuk text (C13)
+static string unhexS(const string& h)
+{
+	string r;
+	for (size_t i = 0; i + 1 < h.size(); i += 2) r.push_back(static_cast<char>(std::stoi(h.substr(i, 2), nullptr, 16)));
+	return r;
+}
+
+static string hexS(const string& s)
+{
+	static const char* d = "0123456789abcdef";
+	string r;
+	for (unsigned char c : s) { r.push_back(d[c >> 4]); r.push_back(d[c & 15]); }
+	return r;
+}
+
+static string descDump(const Util::AutDescription& d)
+{
+	string out = "name=" + hexS(d.name) + ";syms=";
+	bool f = true;
+	for (auto& sy : d.symbols) { if (!f) out += ","; f = false; out += hexS(sy.first) + ":" + std::to_string(sy.second); }
+	out += ";states="; f = true;
+	for (auto& st : d.states) { if (!f) out += ","; f = false; out += hexS(st); }
+	out += ";final="; f = true;
+	for (auto& st : d.finalStates) { if (!f) out += ","; f = false; out += hexS(st); }
+	out += ";trans="; f = true;
+	for (auto& t : d.transitions) {
+		if (!f) out += ","; f = false;
+		for (auto& k : t.first) out += hexS(k) + "|";
+		out += "/" + hexS(t.second) + "/" + hexS(t.third);
+	}
+	return out;
+}
+
+// load -> dump -> load -> dump in one encoding: 'E' load throws, '1' both dumps agree on rules and final states
+// (relaxed equality of the descriptions, under the same state names), '0' they differ, 'e' the reload throws
+template <class Aut>
+static char roundTrip(const string& text)
+{
+	Parsing::TimbukParser parser;
+	CaptureSerializer cs1, cs2;
+	try {
+		Aut a;
+		AutBase::StateDict d1;
+		a.LoadFromString(parser, text, d1);
+		a.DumpToString(cs1, d1);
+		Serialization::TimbukSerializer ser;
+		string text2 = ser.Serialize(cs1.last);
+		try {
+			Aut b;
+			AutBase::StateDict d2;
+			b.LoadFromString(parser, text2, d2);
+			b.DumpToString(cs2, d2);
+			return (cs1.last == cs2.last) ? '1' : '0';
+		}
+		catch (const std::exception&) { return 'e'; }
+	}
+	catch (const std::exception&) { return 'E'; }
+}
+
+template <class Aut>
+static char roundTripFA(const string& text)
+{
+	Parsing::TimbukParser parser;
+	CaptureSerializer cs1, cs2;
+	try {
+		Aut a;
+		AutBase::StateDict d1;
+		a.LoadFromString(parser, text, d1);
+		a.DumpToString(cs1, d1);
+		Serialization::TimbukSerializer ser;
+		// the NFA dump has no symbol list: give every symbol its rank so that the text parses as written
+		Util::AutDescription d = cs1.last;
+		for (auto& t : d.transitions) d.symbols.insert(std::make_pair(t.second, static_cast<int>(t.first.size())));
+		string text2 = ser.Serialize(d);
+		try {
+			Aut b;
+			AutBase::StateDict d2;
+			b.LoadFromString(parser, text2, d2);
+			b.DumpToString(cs2, d2);
+			return (cs1.last == cs2.last) ? '1' : '0';
+		}
+		catch (const std::exception&) { return 'e'; }
+	}
+	catch (const std::exception&) { return 'E'; }
+}
+
+// parse <hex of the input bytes>
+static string opParse(const vector<string>& a)
+{
+	string in = a.empty() ? string() : unhexS(a.at(0));
+	string out;
+	Parsing::TimbukParser p;
+	try {
+		Util::AutDescription d = p.ParseString(in);
+		Serialization::TimbukSerializer ser;
+		out = "P=OK;" + descDump(d) + ";ser=" + hexS(ser.Serialize(d));
+		// parse (serialize d) gives back the same final states and rules
+		try {
+			Util::AutDescription d2 = p.ParseString(ser.Serialize(d));
+			out += string(";again=") + ((d2 == d) ? "1" : "0");
+		}
+		catch (const std::exception&) { out += ";again=E"; }
+	}
+	catch (const std::exception&) { out = "P=ERR"; }
+	out += " L=";
+	out += roundTrip<TA>(in);
+	out += roundTrip<BU>(in);
+	out += roundTrip<TD>(in);
+	out += roundTripFA<FA>(in);
+	return out;
+}
+
 // ---------------------------------------------------------------- LTS simulation engine
 // lts <n> <edges q,a,r;...|-> <partition b/b/... with b = q,q,... | -> <block relation i.j,... | -> <outputSize> <overload 0|1|2>
 static string opLts(const vector<string>& a)
@@ -1132,6 +1246,7 @@ static string runCase(const string& kind, const vector<string>& args)
 	if (kind == "nfah") return opNfaHist(args);
 	if (kind == "lts") return opLts(args);
 	if (kind == "tah") return opTaHist(args);
+	if (kind == "parse") return opParse(args);
 	if (kind == "bddincl") return opBddIncl(args);
 	if (kind == "bddinclall") return opBddInclAll(args);
 	if (kind == "bddh") return opBddHist(args);
